@@ -25,8 +25,8 @@ BOUND = {"quick": "deviation bound 2, 11 providers, sync + async", "thorough": "
 SID = "S-1-5-21-1-2-3-1104"
 PT = b"c15"
 VECTORS = [(0, 3), (0, 2), (2, 3), (2, 0)]
-ACK_MENU: t.List[t.Tuple[str, t.Any]] = [("ack", v, tok) for v in VECTORS for tok in (True, False)] + [("wrongtype",), ("nak",), ("fault",), ("response",), ("eof",)]
-REQ_MENU = [("sealed",), ("fault",), ("bind_ack",), ("eof",)]
+ACK_MENU: t.List[t.Tuple[str, t.Any]] = [("ack", v, tok) for v in VECTORS for tok in (True, False)] + [("wrongtype",), ("nak",), ("fault",), ("busy",), ("response",), ("eof",)]
+REQ_MENU = [("sealed",), ("fault",), ("busy",), ("bind_ack",), ("eof",)]
 
 
 def providers() -> t.List[t.Tuple[str, t.List[bytes], int]]:
@@ -37,6 +37,9 @@ def providers() -> t.List[t.Tuple[str, t.List[bytes], int]]:
         out.append((f"legs{L}-lastempty", [b"C-TOK-%d" % i for i in range(1, L)] + [b""], L - 1))
     for L in (1, 2, 3, 4):
         out.append((f"legs{L}-mutual", [b"C-TOK-%d" % i for i in range(1, L + 1)], L))
+    for L in (2, 3):
+        # the mechanism hands out an empty token although the context is NOT yet established (it still waits for the peer)
+        out.append((f"legs{L}-emptyincomplete", [b"C-TOK-%d" % i for i in range(1, L)] + [b""], L))
     return out
 
 
@@ -98,6 +101,9 @@ class ScriptConn(refdc.Conn):
                 return rpc.enc_bind_nak(d["call_id"], 4)
             if act[0] == "fault":
                 return rpc.enc_fault(d["call_id"], 0, 0x1C010003)
+            if act[0] == "busy":  # "server too busy", nothing was executed (PFC_DID_NOT_EXECUTE): still a failure of this exchange
+                self.torn_down = False
+                return rpc.enc_fault(d["call_id"], 0, 0x1C010014, flags=3 | 0x20)
             if act[0] == "response":
                 return rpc.enc_response(d["call_id"], 0, b"\x00" * 8)
             return None
@@ -115,6 +121,8 @@ class ScriptConn(refdc.Conn):
                 return self.on_getkey(d, raw, ev)
             if act[0] == "fault":
                 return rpc.enc_fault(d["call_id"], 0, 5)
+            if act[0] == "busy":
+                return rpc.enc_fault(d["call_id"], 0, 0x000006BB, flags=3 | 0x20)
             if act[0] == "bind_ack":
                 return rpc.enc_ack_like(rpc.BIND_ACK, 3, d["call_id"], [(0, 0, rpc.NDR64)], None, b"1\x00")
             return None
@@ -164,6 +172,7 @@ def run_one(seed: int, api: str, prov, ch: explorer.Chooser):
 
     def factory(u, p, **kw):
         c = secctx.ScriptedContext(tokens, 16, complete_after=complete_after)
+        c.strict_completion = True
         log["provider"] = c
         log["provider_kw"] = kw
         return c
@@ -279,11 +288,13 @@ def invariants(log: dict, prov) -> t.List[t.Tuple[str, dict]]:
             out.append(("I4.request-fields", {"ctx_id": r["ctx_id"], "auth": None if r["auth"] is None else [r["auth"]["type"], r["auth"]["level"]]}))
         if len(reqs) > 1:
             out.append(("I4.several-requests", {"n": len(reqs)}))
+    if name.endswith("emptyincomplete") and st == "ok":
+        out.append(("I6.fail-open-unfinished-context", {"actions": repr(acts), "returned": repr(val)}))
     if bad and st == "ok":
         out.append(("I6.fail-open", {"actions": repr(acts), "returned": repr(val)}))
     if not bad and st == "ok" and val != PT:
         out.append(("I6.wrong-plaintext", {"returned": repr(val)}))
-    if not bad and not any(a[0] == "ack" and (a[1] != VECTORS[0] or not a[2]) for _, a in acts if a[0] == "ack") and st != "ok":
+    if not bad and not name.endswith("emptyincomplete") and not any(a[0] == "ack" and (a[1] != VECTORS[0] or not a[2]) for _, a in acts if a[0] == "ack") and st != "ok":
         out.append(("liveness.default-script-failed", {"result": repr(val), "actions": repr(acts)}))
     # I5
     if p.wraps:
